@@ -8,7 +8,7 @@
 //              of the other list, sasg: target = target
 //   sl       : (a|b).(pb x | pf x | pop | clear | ia k x | dn k | asg a|b | cc | ccv | mb | me | m+ | mi x | mr)
 //   rv <n>   : (a|b).(push x | emp x | pop | clear | resize k | set i x | at i | fill x | swap | asg | ctor | ctorc k |
-//                     ctorv k x | init [l])
+//                     ctorv k x | init [l] | initr ra|ptr|bidi|fwd|in|is [l])
 //   bv <B>   : new n | newv n b | fromv b<bits> | resize n b | clear | setall | unsetall | set i | reset i | flip i |
 //              set1 i j b | reset1 i j | flip1 i j | asgb i b | asgs i bits | asgr i k | and|or|xor i bits |
 //              andr|orr|xorr i k | shl i n | shr i n | q i | not i | shlq i n | shrq i n | eqs i bits | eqr i k | test i j
@@ -234,7 +234,12 @@ std::string genRV(Rng& r, const Args& a) {
       long k = sizeArg();
       std::vector<int> l;
       for (long j = 0; j < k; ++j) l.push_back((int)r.range(0, 3));
-      os << T << "init " << listStr(l); s = k;
+      // half of them through the iterator-pair constructor with an explicit iterator category (single-pass input
+      // iterators twice as often as each of the multi-pass ones)
+      static const std::vector<std::string> KINDS = {"ra", "ptr", "bidi", "fwd", "in", "in", "is", "is"};
+      if (r.coin()) os << T << "initr " << r.pick(KINDS) << " " << listStr(l);
+      else os << T << "init " << listStr(l);
+      s = k;
     }
     ops.push_back(os.str());
   }
